@@ -24,7 +24,7 @@ def run(tier, seed, res, lean):
     base = [6, 12, 24] if tier == 'quick' else [6, 12, 24, 48]
     # families with a MemoryCache behind the diamond layers (CacheToRam; the RAM level of CacheColumns) are measured on smaller sizes: their
     # TIME doubles with every layer on the unchanged tree (finding F4b, call site MemoryCache.get/set); the step counts are still checked
-    jobs = [(f, base if f not in ('diamond-ram', 'diamond-columns') else [4, 8, 16]) for f in suite_cost.FAMILIES]
+    jobs = [(f, [20, 40, 80] if f == 'crop-rshift' else base if f not in ('diamond-ram', 'diamond-columns') else [4, 8, 16]) for f in suite_cost.FAMILIES]
     outs = pmap(_job, jobs)
     triples = 0
     table = {}
